@@ -806,7 +806,8 @@ def rule_blockdone_order(ctx, cfg, r):
                         paths.term_contains(v[3], lambda y: y[0] == "load" and paths.place_is_field(y[1], "num_bits", "LocalVars") and y[2] != 0):
                     seq.append("mask")
             order = [s for s in seq if s in ("pad", "undo", "rebuild", "mask")]
-            if order[:1] == ["pad"] and order.index("undo") < order.index("rebuild") < len(order) and "mask" in order[order.index("rebuild"):]:
+            if order[:1] == ["pad"] and "undo" in order and "rebuild" in order and \
+                    order.index("undo") < order.index("rebuild") < len(order) and "mask" in order[order.index("rebuild"):]:
                 # the rebuilt iterator starts at consumed - undo
                 fs = [e for e in x.effects if e[0] == "call" and e[1].endswith("InputWrapper::from_slice")]
                 un = [e for e in x.effects if e[0] == "call" and e[1].endswith("inflate::core::undo_bytes")]
@@ -1903,3 +1904,40 @@ def rule_tables_from_scratch(ctx, cfg, r):
                    where=first_span(x), path=row_path(x, 6))
     if n < 6:
         r.fail(f.name, "scratch:rows", "only %d table-building rows of init_tree found" % n)
+
+
+# ---------------------------------------------------------------------------------------------- R06.5 / R07.6 handed-back bytes leave no bits behind
+def rule_handback_mask(ctx, cfg, r):
+    """undo_bytes hands whole look-ahead bytes back to the caller by lowering num_bits only; the bits themselves stay in bit_buf.  The
+    byte-wise readers (read_byte, stored-block copy) bypass the bit buffer and the bit readers OR new bytes in above num_bits — so
+    wherever undo_bytes has run, the value of bit_buf that survives must be masked to the new num_bits."""
+    from rules.tokens import extraction, uncast
+    c = ctx.crate(cfg)
+    fn = "inflate::core::decompress_with_limit"
+    n = 0
+    for x in epilogue_rows(ctx, cfg):
+        if x.outcome[0] != "return":
+            continue
+        un = [e for e in x.effects if e[0] == "call" and e[1].endswith("inflate::core::undo_bytes")]
+        if not un:
+            continue
+        n += 1
+        st = [e for e in x.stores() if e[1][0] == "fld" and e[1][2] == "bit_buf" and e[1][3].endswith("DecompressorOxide")]
+        good = False
+        why = "bit_buf is not stored back"
+        if st:
+            v = st[-1][2]
+            ex = extraction(v)
+            why = "bit_buf is stored back as %s" % tstr(v)[:100]
+            if ex:
+                cterm, nterm = uncast(ex[0]), uncast(ex[1])
+                good = cterm[0] == "load" and paths.place_is_field(cterm[1], "bit_buf") and nterm[0] == "load" and \
+                    paths.place_is_field(nterm[1], "num_bits") and nterm[2] >= 1
+        if good:
+            r.ok(fn, "handback-mask/exit", "after undo_bytes the saved bit buffer is bit_buf & ((1 << num_bits) - 1) with the lowered num_bits")
+        else:
+            r.fail(fn, "handback-mask/exit", "on an exit that hands unread bytes back (undo_bytes lowers num_bits) the saved bit buffer is not masked to the "
+                   "new num_bits (%s): the handed-back bytes stay in the buffer and are ORed over when the input is read again" % why,
+                   where=first_span(x), path=row_path(x, 6))
+    if n < 4:
+        r.fail(fn, "handback-mask/rows", "expected at least 4 exit rows that call undo_bytes, found %d" % n)
